@@ -13,6 +13,7 @@
 EXTENDS Store, Json, IOUtils, TLC, FiniteSets
 
 Rec      == ndJsonDeserialize(IOEnv.TRACE)
+Focus    == IOEnv.FOCUS          \* "C01": only "every call returned"; anything else: the store relations as well
 SufList  == JsonDeserialize(IOEnv.VERIF_GEN \o "/suffix_chars.json")
 SufKeys  == {SufList[i].key : i \in DOMAIN SufList}
 Suffixes == [k \in SufKeys |-> SufList[CHOOSE i \in DOMAIN SufList : SufList[i].key = k].val]
@@ -56,7 +57,8 @@ List ==
            w      == PreOf(E)
            wrap(x) == w.pre \o x \o w.trail
            shown  == IF E.sel + 1 \in DOMAIN E.cands THEN E.cands[E.sel + 1] ELSE <<"<out of range>">>
-       IN IF key \in DOMAIN mem
+       IN IF Focus = "C01" THEN TRUE
+          ELSE IF key \in DOMAIN mem
           THEN \* the statement speaks about re-typing the same text
                \* (a punctuation key echoes the caller's selection byte by design - see F05 - so when the text ends
                \*  in such a character the echoed byte is accepted as well)
@@ -72,8 +74,12 @@ List ==
     /\ cur' = l /\ UNCHANGED mem /\ l' = l + 1
 
 \* committing a candidate other than the preselected one learns it; the preselected one changes nothing
+\* a panic while typing or committing is never allowed (C01)
+Panic == Is("panic") /\ Fail("the engine panicked") /\ UNCHANGED <<mem, cur>> /\ l' = l + 1
+
 Commit ==
     /\ Is("commit") /\ cur # 0
+    /\ Require(E.panic = "", "the commit panicked")
     /\ LET L == Rec[cur] IN
        mem' = IF E.idx # L.sel /\ E.idx + 1 \in DOMAIN L.cands
               THEN [k \in DOMAIN mem \cup {KeyOf(L.typed)} |->
@@ -84,12 +90,12 @@ Commit ==
 \* the on-disk store is at all times absent or a JSON object of strings, holding exactly what was learned
 File ==
     /\ Is("file")
-    /\ Require(E.state \in {"absent", "valid"}, "the on-disk store is not a JSON object of strings")
+    /\ Require(Focus = "C01" \/ E.state \in {"absent", "valid"}, "the on-disk store is not a JSON object of strings")
     /\ UNCHANGED <<mem, cur>> /\ l' = l + 1
 
 Finish == Is("finish") /\ cur' = 0 /\ UNCHANGED mem /\ l' = l + 1
 
-Next == Reset \/ Restart \/ List \/ Commit \/ File \/ Finish
+Next == Reset \/ Restart \/ List \/ Commit \/ File \/ Finish \/ Panic
 Spec == Init /\ [][Next]_vars
 
 \* acceptance: every line consumed
